@@ -8,6 +8,7 @@
 -/
 import PygModel.Join
 import PygModel.Native
+import PygModel.JoinDriver
 import PygProofs.Lemmas.JoinLemmas
 import PygProofs.Lemmas.KeyEq
 import PygProofs.Lemmas.JoinCols
@@ -797,6 +798,164 @@ theorem join_keys_native_agree (x y : Table) (ln rn : List String) (lk rk : List
   have : compare ys.length ys.length = .eq := by simp
   rw [this]
   exact cmpArr_cells_native xs ys hl hbx hby o h
+
+/-! ### computed keys (review 4 v1, item 4): `join_keys_native_agree` for ANY key specs whose formulas return scalars
+
+The statement's "computed keys" (callables; the generator's `id` / `dbl` / `const` return a cell of the row, its double, `0`) are `KeySpec.fn f`
+with `f` returning any `Val`.  What the sort premise needs is only that every key ENTRY is a scalar: then the keys of both operands are tuples of
+scalar cells of one length, whichever mix of columns and formulas the two key lists are. -/
+
+/-- a key spec whose value on every row is a scalar cell: a column always is, a formula if it returns one whenever it returns -/
+def ScalarSpec : KeySpec → Prop
+  | .col _ => True
+  | .fn f => ∀ row v, f row = .ok v → ∃ c : Cell, v = .cell c
+
+theorem mapM_ok_mem {α β : Type} (f : α → Res β) : ∀ (xs : List α) (ys : List β), xs.mapM f = .ok ys →
+    ∀ y ∈ ys, ∃ x ∈ xs, f x = .ok y
+  | [], ys, h => by
+    simp only [List.mapM_nil, pure, Except.pure, Except.ok.injEq] at h
+    subst h; intro y hy; cases hy
+  | a :: as, ys, h => by
+    simp only [List.mapM_cons, bind, Except.bind] at h
+    split at h
+    · cases h
+    · rename_i b hb
+      split at h
+      · cases h
+      · rename_i bs hbs
+        simp only [pure, Except.pure, Except.ok.injEq] at h
+        subst h
+        intro y hy
+        rcases List.mem_cons.mp hy with rfl | hy
+        · exact ⟨a, by simp, hb⟩
+        · obtain ⟨x, hx, hfx⟩ := mapM_ok_mem f as bs hbs y hy
+          exact ⟨x, by simp [hx], hfx⟩
+
+theorem all_cells_map : ∀ (vs : List Val), (∀ v ∈ vs, ∃ c : Cell, v = .cell c) → ∃ cs : List Cell, vs = cs.map .cell
+  | [], _ => ⟨[], rfl⟩
+  | v :: vs, h => by
+    obtain ⟨c, rfl⟩ := h v (by simp)
+    obtain ⟨cs, rfl⟩ := all_cells_map vs (fun w hw => h w (by simp [hw]))
+    exact ⟨c :: cs, rfl⟩
+
+theorem mapM_keyCol_scalar (t : Table) : ∀ (specs : List KeySpec) (cols : List (List Val)),
+    (∀ s ∈ specs, ScalarSpec s) → specs.mapM t.keyCol = .ok cols →
+    ∃ cc : List (List Cell), cols = cc.map (·.map .cell) ∧ cc.length = specs.length
+  | [], cols, _, h => by
+    simp only [List.mapM_nil, pure, Except.pure, Except.ok.injEq] at h
+    exact ⟨[], by simp [← h], rfl⟩
+  | sp :: ns, cols, hs, h => by
+    simp only [List.mapM_cons, bind, Except.bind] at h
+    split at h
+    · cases h
+    · rename_i c hc
+      split at h
+      · cases h
+      · rename_i cs hcs
+        simp only [pure, Except.pure, Except.ok.injEq] at h
+        obtain ⟨cc, rfl, hl⟩ := mapM_keyCol_scalar t ns cs (fun s' hs' => hs s' (by simp [hs'])) hcs
+        have hsp := hs sp (by simp)
+        cases sp with
+        | col k =>
+          simp only [Table.keyCol] at hc
+          split at hc
+          · rename_i xs _
+            simp only [Except.ok.injEq] at hc
+            exact ⟨xs :: cc, by simp [← h, ← hc], by simp [hl]⟩
+          · cases hc
+        | fn f =>
+          simp only [Table.keyCol] at hc
+          have hall : ∀ v ∈ c, ∃ cl : Cell, v = .cell cl := by
+            intro v hv
+            obtain ⟨i, _, hi⟩ := mapM_ok_mem _ _ _ hc v hv
+            exact hsp _ _ hi
+          obtain ⟨xs, rfl⟩ := all_cells_map c hall
+          exact ⟨xs :: cc, by simp [← h], by simp [hl]⟩
+
+/-- the keys of a table under ANY list of scalar-valued key specs (columns and formulas mixed) are tuples of scalar cells, one entry per spec -/
+theorem keysOf_scalar (t : Table) (specs : List KeySpec) (ks : List Val) (hs : ∀ s ∈ specs, ScalarSpec s)
+    (h : t.keysOf specs = .ok ks) :
+    ∀ k ∈ ks, ∃ cs : List Cell, k = .tuple (cs.map .cell) ∧ cs.length = specs.length := by
+  simp only [Table.keysOf, bind, Except.bind] at h
+  split at h
+  · cases h
+  · rename_i cols hcols
+    simp only [pure, Except.pure, Except.ok.injEq] at h
+    subst h
+    obtain ⟨cc, rfl, hl⟩ := mapM_keyCol_scalar t specs cols hs hcols
+    intro k hk
+    simp only [zipCols, List.mem_map, List.mem_range] at hk
+    obtain ⟨i, _, rfl⟩ := hk
+    refine ⟨cc.map (·.getD i .none), ?_, by simp [hl]⟩
+    simp only [List.map_map, Function.comp_def, List.getD_eq_getElem?_getD, List.getElem?_map]
+    congr 1
+    apply List.map_congr_left
+    intro c _
+    cases c[i]? <;> rfl
+
+/-- `join_keys_native_agree` for the whole of the statement's "key columns or computed keys": whichever specs the two key lists hold - names,
+formulas, mixed, a formula on the left against a name on the right - as long as every formula returns a scalar, python's native tuple order on the
+keys of BOTH operands is `cmp` wherever it is defined (bools apart), so the natively sorted key list is the `cmp`-sorted one of the model -/
+theorem join_keys_native_agree_fn (x y : Table) (lc rc : List KeySpec) (lk rk : List Val)
+    (hlen : lc.length = rc.length) (hls : ∀ s ∈ lc, ScalarSpec s) (hrs : ∀ s ∈ rc, ScalarSpec s)
+    (hlk : x.keysOf lc = .ok lk) (hrk : y.keysOf rc = .ok rk) :
+    ∀ a ∈ lk ++ rk, ∀ b ∈ lk ++ rk, ∃ xs ys : List Cell, a = .tuple (xs.map .cell) ∧ b = .tuple (ys.map .cell) ∧
+      xs.length = ys.length ∧
+      ((∀ c ∈ xs, c.isBool = false) → (∀ c ∈ ys, c.isBool = false) → ∀ o, nativeArr xs ys = some o → cmp a b = o) := by
+  have key : ∀ a ∈ lk ++ rk, ∃ cs : List Cell, a = .tuple (cs.map .cell) ∧ cs.length = lc.length := by
+    intro a ha
+    rcases List.mem_append.mp ha with h | h
+    · exact keysOf_scalar x lc lk hls hlk a h
+    · obtain ⟨cs, h1, h2⟩ := keysOf_scalar y rc rk hrs hrk a h
+      exact ⟨cs, h1, by omega⟩
+  intro a ha b hb
+  obtain ⟨xs, rfl, hx⟩ := key a ha
+  obtain ⟨ys, rfl, hy⟩ := key b hb
+  have hl : xs.length = ys.length := by omega
+  refine ⟨xs, ys, rfl, rfl, hl, ?_⟩
+  intro hbx hby o h
+  simp only [cmp, Val.norm, normList_map_cell, cmpN, List.length_map, hl]
+  have : compare ys.length ys.length = .eq := by simp
+  rw [this]
+  exact cmpArr_cells_native xs ys hl hbx hby o h
+
+/-- every callable of the harness menu (`id`, `dbl`, `const` of `JoinDriver.rowFn` - the computed keys that ARE generated) is scalar-valued, so
+`join_keys_native_agree_fn` covers every key list the correspondence runs -/
+theorem driver_formulas_scalar (name : String) (arg : Option String) (f : RowDict → Res Val)
+    (h : JoinDriver.rowFn name arg = some f) : ScalarSpec (.fn f) := by
+  unfold JoinDriver.rowFn at h
+  split at h
+  · simp only [Option.some.injEq] at h; subst h
+    intro row v hv
+    simp only [bind, Except.bind, pure, Except.pure] at hv
+    split at hv
+    · cases hv
+    · simp only [Except.ok.injEq] at hv; exact ⟨_, hv.symm⟩
+  · simp only [Option.some.injEq] at h; subst h
+    intro row v hv
+    simp only [Except.ok.injEq] at hv; exact ⟨_, hv.symm⟩
+  · simp only [Option.some.injEq] at h; subst h
+    intro row v hv
+    simp only [bind, Except.bind, pure, Except.pure] at hv
+    split at hv
+    · cases hv
+    · split at hv <;> first | (simp only [Except.ok.injEq] at hv; exact ⟨_, hv.symm⟩) | cases hv
+  · cases h
+
+/-- the hypotheses are satisfiable on a non-trivial call: a formula (the row's `a` doubled when it is an int, else `None`) against a column -/
+example : ∀ s ∈ [KeySpec.fn (fun row => .ok (.cell (match row.lookup "a" with | some (.int n) => .int (2 * n) | _ => .none))), KeySpec.col "b"],
+    ScalarSpec s := by
+  intro s hs
+  simp only [List.mem_cons, List.mem_nil_iff, or_false] at hs
+  rcases hs with rfl | rfl
+  · intro row v h; simp only [Except.ok.injEq] at h; exact ⟨_, h.symm⟩
+  · trivial
+
+/-- ... and a formula returning a list is NOT scalar (the container keys of `merge_over_native_order_loses_pair`) -/
+example : ¬ ScalarSpec (.fn fun _ => .ok (.list [.cell (.int 3)])) := by
+  intro h
+  obtain ⟨c, hc⟩ := h [] _ rfl
+  cases hc
 
 /-- ... while the MODEL (groups sorted by `cmp`) pairs left row 0 (`[3]`) with right row 0 (`[3]`) -/
 theorem model_join_finds_pair :
